@@ -105,6 +105,9 @@ def step_of(att, req_kind, k):
     if kind == 'exc':
         cls = CLASSES[att[1]]
         return ('raise', cls('T%d' % k) if cls is not json.JSONDecodeError else cls('T%d' % k, 'x', 0))
+    if kind == 'nbody':
+        # the server answers a NOTIFICATION with a body (an error with a listed code): a lenient client discards it
+        return ('text', json.dumps({'jsonrpc': '2.0', 'id': None, 'error': {'code': att[1], 'message': 'm', 'data': k}}))
     if kind == 'garbage':
         return ('text', '{nope')
     if kind == 'badid':
@@ -119,6 +122,8 @@ def step_of(att, req_kind, k):
 def model_attempt(att, req_kind):
     """The akind the model is given for a scripted attempt."""
     kind = att[0]
+    if kind == 'nbody':
+        return ('none',)
     if kind == 'ok':
         return ('none',) if req_kind == 'notification' else ('resp', None)
     if kind == 'code':
@@ -160,7 +165,8 @@ def observe(case):
     # the `tracers` parameter is typed Iterable: a list, a tuple or a one-shot iterator / generator
     tracers = {'list': lambda: tracers, 'tuple': lambda: tuple(tracers), 'iter': lambda: iter(tracers),
                'gen': lambda: (t for t in list(tracers))}[case.get('tr_as', 'list')]()
-    cl = ce.make_client(is_async, script, tracers=tracers, retry_strategy=strategy_obj(case['client'], case['jitter']))
+    cl = ce.make_client(is_async, script, tracers=tracers, retry_strategy=strategy_obj(case['client'], case['jitter']),
+                        **({'strict': False} if case.get('lenient') else {}))
     kwargs = {}
     if case['per'] != 'unset':
         kwargs['_retry_strategy'] = None if case['per'] == 'none' else strategy_obj(case['per'], case['jitter'])
@@ -193,7 +199,7 @@ def observe(case):
 
     def go_plain():
         if req_kind == 'batch':
-            breq = pjrpc.BatchRequest(pjrpc.Request('m', [1], id=1))
+            breq = pjrpc.BatchRequest(pjrpc.Request('m', [1], id=1), strict=case.get('bstrict', True))
             if kwargs.get('_retry_strategy', 'x') == 'x' and '_retry_strategy' not in kwargs:
                 return cl.batch.send(breq, **kwargs)
             return cl.batch.send(breq, **kwargs)
